@@ -239,3 +239,13 @@ def only_bracket_spaces(src, out):
         else:
             return False
     return i == len(src) and inserted > 0
+
+
+def ends_with_generic_pack(src):
+    """the last code token of the text is the `...` of a generic type pack (`Name...`): a comment attached to that token is
+    not written by the token-based generator (finding F-C03-f)"""
+    code = [(a, b) for k, a, b in _items(src) if k == "code"]
+    if len(code) < 2:
+        return False
+    (a1, b1), (a2, b2) = code[-2], code[-1]
+    return src[a2:b2] == "..." and (src[b1 - 1].isalnum() or src[b1 - 1] == "_")
